@@ -74,6 +74,9 @@ func (d *depositStore) GetAccountBalance(account store.Account) (store.Balance, 
 		return b, err
 	}
 	b.Deposit = *d.deposit(account)
+	if !fakeClock {
+		time.Sleep(250 * time.Microsecond) // the deposit is looked up at the contract: that takes a moment
+	}
 	return b, nil
 }
 
